@@ -311,7 +311,8 @@ class TsGraphEdgeMixin:
     _adj: _CachedPropertyResetterAdj
     edges: Iterator
 
-    def add_edge(self, u_of_edge: TsNode, v_of_edge: TsNode, **attr):
+    def _check_ts_edge(self, u_of_edge: TsNode, v_of_edge: TsNode):
+        """Check that an edge can be added, before anything in the graph is changed."""
         self._check_ts_node(u_of_edge)
         self._check_ts_node(v_of_edge)
         _, u_lag = u_of_edge
@@ -323,6 +324,17 @@ class TsGraphEdgeMixin:
             raise RuntimeError(
                 f'The lag of the "to node" {v_lag} should be greater than "from node" {u_lag}'
             )
+
+        # homologous edges are added assuming the "to node" is not the earlier node; otherwise
+        # adding them would fail at a node with a positive time index
+        if self.stationary and v_lag < u_lag:
+            raise ValueError(
+                f'The "to node" {v_of_edge} of an edge in a stationary graph should not be '
+                f'earlier than the "from node" {u_of_edge}.'
+            )
+
+    def add_edge(self, u_of_edge: TsNode, v_of_edge: TsNode, **attr):
+        self._check_ts_edge(u_of_edge, v_of_edge)
         self.add_node(u_of_edge)
         self.add_node(v_of_edge)
 
@@ -441,6 +453,13 @@ class TsGraphEdgeMixin:
                 from_t += 1
 
     def add_edges_from(self, ebunch, **attr):
+        ebunch = list(ebunch)
+        # check all edges first, so that a call that raises has not added a part of the edges
+        for e in ebunch:
+            if len(e) not in (2, 3):
+                raise NetworkXError(f"Edge tuple {e} must be a 2-tuple or 3-tuple.")
+            self._check_ts_edge(e[0], e[1])
+
         for e in ebunch:
             ne = len(e)
             if ne == 3:
@@ -464,6 +483,12 @@ class TsGraphEdgeMixin:
             super().remove_edge(u_of_edge, v_of_edge)  # type: ignore
 
     def remove_edges_from(self, ebunch):
+        ebunch = list(ebunch)
+        if self.stationary:
+            # check all edges first, so that a call that raises has not removed a part of the edges
+            for edge in ebunch:
+                self._check_ts_node(edge[0])
+                self._check_ts_node(edge[1])
         for edge in ebunch:
             self.remove_edge(*edge)
 
